@@ -627,6 +627,26 @@ fn day_of_year(year: i64, month: u32, day: u32) -> u32 {
     (current - jan1 + 1) as u32
 }
 
+/// Verification hook (H2): exposes the private calendar helpers unchanged.
+#[cfg(kahflane_turdb_verif)]
+pub mod verif {
+    pub fn date_to_days(year: i64, month: u32, day: u32) -> i64 {
+        super::date_to_days(year, month, day)
+    }
+    pub fn days_to_date(days: i64) -> (i64, u32, u32) {
+        super::days_to_date(days)
+    }
+    pub fn day_of_week(year: i64, month: u32, day: u32) -> u32 {
+        super::day_of_week(year, month, day)
+    }
+    pub fn day_of_year(year: i64, month: u32, day: u32) -> u32 {
+        super::day_of_year(year, month, day)
+    }
+    pub fn days_in_month(year: i64, month: u32) -> u32 {
+        super::days_in_month(year, month)
+    }
+}
+
 fn get_local_timezone_offset() -> i64 {
     use std::time::SystemTime;
     let now = SystemTime::now()
